@@ -5,7 +5,7 @@
    floats ...) with a boolean equality that decides Leibniz equality; the theorems hold
    for every such K. *)
 From Coq Require Import List ZArith QArith Bool Permutation.
-From Orso Require Import Model.C12 Proofs.C12 Proofs.C12_Session.
+From Orso Require Import Model.C12 Proofs.C12 Proofs.C12_Session Proofs.C12_Columns.
 Import ListNotations.
 Close Scope Q_scope.
 Close Scope Z_scope.
@@ -270,6 +270,34 @@ Theorem C12_groupby_object_methods :
 Proof. intros. split; [apply gb_aggregate_eq|apply gb_groups_eq]. Qed.
 Print Assumptions C12_groupby_object_methods.
 
+(* ---------- which column a name denotes ---------- *)
+(* A name (key column or requested column) denotes the FIRST frame column whose name is the same
+   sequence of code points - no case folding, no Unicode normalisation, no trimming: "v" and "V",
+   "strasse" and "stra\195\159e", "k" and the Kelvin sign are different columns. *)
+Theorem C12_name_denotes_first_exact_match :
+  forall (t : name) (names : list name) (i : nat),
+  index_of t names = Some i <->
+  (nth_error names i = Some t /\ forall j, j < i -> nth_error names j <> Some t).
+Proof. exact index_of_exact. Qed.
+Print Assumptions C12_name_denotes_first_exact_match.
+
+(* ... and only the named columns matter: two frames with the same column names whose rows agree,
+   row by row, on the cells of the key columns and of the columns named in the requests give the
+   same result, whatever their other columns hold (a sibling column whose name differs by case
+   included). *)
+Theorem C12_only_named_columns_matter :
+  forall (K : Type) (K_eqb : K -> K -> bool),
+  (forall a b : K, K_eqb a b = true <-> a = b) ->
+  forall (names : list name) (rows rows' : list (list (val K))) (lz lz' : bool)
+         (keycols : list name) (reqs : list (func * name)) (gidx : list nat),
+  reqs <> [] ->
+  group_indices names keycols = Some gidx ->
+  Forall2 (same_named_cells K names gidx (map snd reqs)) rows rows' ->
+  fst (aggregate K K_eqb (mkframe names rows lz) keycols reqs) =
+  fst (aggregate K K_eqb (mkframe names rows' lz') keycols reqs).
+Proof. exact only_named_columns. Qed.
+Print Assumptions C12_only_named_columns_matter.
+
 (* ---------- non-vacuity ---------- *)
 (* The hypotheses are satisfiable by a non-trivial value: a 5-row frame keyed on k with the
    hash-colliding keys -1 and -2, a null key, an all-null group and a repeated column;
@@ -334,3 +362,26 @@ Example C12_session_after_generator_spent :
      OutRes (Ok [[(LKey [107%N], cv (vi 3))]]);
      OutRes (Ok [[(LAgg COUNT [42%N], cv (vi 1)); (LKey [107%N], cv (vi 3))]])].
 Proof. vm_compute. reflexivity. Qed.
+
+(* ... and frames with sibling columns exist: columns "k", "v", "V" (118 / 86); SUM(v), SUM(V) and
+   COUNT of the absent "K" are each taken from the column named (the absent one counts rows);
+   overwriting column V leaves SUM(v) as it was. *)
+Example C12_sibling_columns :
+  let names : list name := [[107]; [118]; [86]]%N in
+  let rows : list (list (val kc)) := [[vi 1; vi 1; vi 100]; [vi 1; vi 2; vn]; [vi 2; vn; vi 300]]%Z in
+  let rows' : list (list (val kc)) := [[vi 1; vi 1; vi 7]; [vi 1; vi 2; vi 7]; [vi 2; vn; vn]]%Z in
+  fst (aggregate kc kc_eqb (mkframe names rows false) [[107%N]] [(SUM, [118%N]); (SUM, [86%N]); (COUNT, [75%N])]) =
+    Ok [ [(LAgg SUM [118%N], cv (vi 3)); (LAgg SUM [86%N], cv (vi 100)); (LAgg COUNT [75%N], cv (vi 2)); (LKey [107%N], cv (vi 1))];
+         [(LAgg SUM [118%N], cv vn); (LAgg SUM [86%N], cv (vi 300)); (LAgg COUNT [75%N], cv (vi 1)); (LKey [107%N], cv (vi 2))] ] /\
+  Forall2 (same_named_cells kc names [0] (map snd [(SUM, [118%N])])) rows rows' /\
+  group_indices names [[75%N]] = None.
+Proof.
+  cbv zeta. split; [vm_compute; reflexivity|]. split; [|vm_compute; reflexivity].
+  assert (P : forall r r' : list (val kc), cellat kc r 0 = cellat kc r' 0 -> cellat kc r 1 = cellat kc r' 1 ->
+              same_named_cells kc [[107]; [118]; [86]]%N [0] (map snd [(SUM, [118%N])]) r r').
+  { intros r r' H0 H1. split.
+    - intros i [<-|[]]. exact H0.
+    - intros c i [<-|[]] H. vm_compute in H. inversion H; subst. exact H1. }
+  constructor; [apply P; reflexivity|]. constructor; [apply P; reflexivity|].
+  constructor; [apply P; reflexivity|]. constructor.
+Qed.
